@@ -167,6 +167,29 @@ pub fn run(ctx: &Ctx) -> i32 {
                 }
             }
         }
+        // every byte value as the common first byte of all keys (the root is then a single-transition node that carries
+        // the smallest value as its output; 193 of the 256 bytes are stored explicitly, 63 through the common-input table)
+        for b in 0..=255u8 {
+            if (b as usize) % n != shard {
+                continue;
+            }
+            let mut r = Rng::new(ctx.seed, 0x16_b17e + b as u64);
+            for variant in 0..4 {
+                let first = [1u64, 256, 70_000, (1 << 32) + 5][variant];
+                let mut keys: Vec<Vec<u8>> = match variant % 2 {
+                    0 => vec![vec![b, b'a'], vec![b, b'b']],
+                    _ => vec![vec![b, b, 0xfe, b'k'], vec![b, b, 0xff], vec![b, b'z']],
+                };
+                keys.sort();
+                keys.dedup();
+                let kv: Kv = keys.into_iter().enumerate().map(|(i, k)| (k, first + (i as u64) * (first + 3))).collect();
+                if let Ok(Ok(bytes)) = guard(|| build::build(if variant < 2 { Front::MapInsert } else { Front::RawGeom(7, 2) }, &kv)) {
+                    ev.fps.insert(crate::rng::fnv_u64(0x16_b17e + variant as u64, b as u64));
+                    check_map(&kv, &bytes, &mut r, ev, "all keys share their first byte");
+                    ev.count("maps:common-first-byte");
+                }
+            }
+        }
         // long keys (1..400 bytes) and wide nodes (fan-out palette at depth 0 and 1), monotone values
         for i in 0..ctx.tier.pick(60, 400) {
             if i % n != shard {
@@ -230,9 +253,9 @@ pub fn run(ctx: &Ctx) -> i32 {
         ev,
         Spec {
             level: "exploration",
-            rule: "one evaluation = one get_key(v) + get_key_into(v, prefixed buffer) query compared with the inverse of the model map; maps: ALL 32768 subsets of {a,b}^<=3 (with and without the empty key) x 6 strictly increasing value shapes (0,1,2..; offset+gaps; boundary palette; huge gaps up to ~u64::MAX; random gaps; starting at 1 so an empty key carries a non-zero value) [quick: shapes 5-6 on every 2nd subset], keys of 1..400 bytes, nodes of every fan-out class up to 256, the same maps as version-1 and version-2 files written by the reference encoder (outputs pushed towards the root as the builder does), corpora with value = i, 2i+1, i^2+5, random monotone maps over byte-level alphabets and several cache geometries; queries per map: every stored value, +-1, 0, 1, u64::MAX(-1), 20 random; non-trivial = every query; distinct = (map, value), distinct by construction",
+            rule: "one evaluation = one get_key(v) + get_key_into(v, prefixed buffer) query compared with the inverse of the model map; maps: ALL 32768 subsets of {a,b}^<=3 (with and without the empty key) x 6 strictly increasing value shapes (0,1,2..; offset+gaps; boundary palette; huge gaps up to ~u64::MAX; random gaps; starting at 1 so an empty key carries a non-zero value) [quick: shapes 5-6 on every 2nd subset], maps whose keys all start with the same byte, for every byte value and first values 1/256/70000/2^32+5, keys of 1..400 bytes, nodes of every fan-out class up to 256, the same maps as version-1 and version-2 files written by the reference encoder (outputs pushed towards the root as the builder does), corpora with value = i, 2i+1, i^2+5, random monotone maps over byte-level alphabets and several cache geometries; queries per map: every stored value, +-1, 0, 1, u64::MAX(-1), 20 random; non-trivial = every query; distinct = (map, value), distinct by construction",
             assumptions: vec!["maps whose values are not strictly increasing are outside the statement and skipped".into(), "the buffer content after get_key_into returned false is unspecified and not judged".into()],
-            floors: vec![("cov:maps-with-empty-key-nonzero-value", 1000), ("cov:maps-with-empty-key-zero-value", 1000), ("queries:present-value", 10_000), ("queries:absent-value", 10_000), ("maps:long-keys", 20), ("maps:wide-nodes", 20), ("maps:version-1-2-files", 1000)],
+            floors: vec![("cov:maps-with-empty-key-nonzero-value", 1000), ("cov:maps-with-empty-key-zero-value", 1000), ("queries:present-value", 10_000), ("queries:absent-value", 10_000), ("maps:long-keys", 20), ("maps:wide-nodes", 20), ("maps:version-1-2-files", 1000), ("maps:common-first-byte", 1000)],
             exhaustive: Some(!ctx.quick()),
         },
     )
